@@ -315,6 +315,17 @@ def r5_evaluate(chk: Check) -> None:
     chk.expect("if not isinstance(expr, str):" in t, "C10.R5", ev, "non-string constants are returned unchanged", "constants are coerced", ev.loc())
     nested = P.func(f"{EXPR}/__init__.py:_evaluate_nested")
     t = unparse(nested.node, 100000)
+    rec = [c for c in body_calls(nested) if isinstance(c.func, ast.Name) and c.func.id == "evaluate"]
+    deep = [c for c in rec if isinstance(kwarg(c, "evaluate_nested"), ast.Constant) and kwarg(c, "evaluate_nested").value is True]  # type: ignore[union-attr]
+    shallow = [c for c in rec if c not in deep]
+    if rec and deep and shallow:
+        chk.violation("C10.R5", nested, "every nested value / item is evaluated recursively (evaluate_nested=True)",
+                      f"`{unparse(shallow[0], 60)}` does not recurse while its sibling `{unparse(deep[0], 60)}` does: objects or arrays inside an array of a link's requestBody are sent with their expressions as literal text, and an unresolvable expression there no longer drops the body",
+                      nested.loc(shallow[0]))
+    elif rec and deep:
+        chk.ok("C10.R5", nested, "every nested value / item is evaluated recursively (evaluate_nested=True)", f"{len(deep)} recursive call(s)", nested.loc())
+    else:
+        chk.undecided("C10.R5", nested, "every nested value / item is evaluated recursively (evaluate_nested=True)", "recursive evaluate(...) calls not recognised", nested.loc())
     chk.decide(t.count("is UNRESOLVABLE") >= 3, "C10.R5", nested, "nested evaluation propagates UNRESOLVABLE (key, value, item)", "an unresolvable nested value is embedded in the body", nested.loc())
 
 
